@@ -171,6 +171,28 @@ MUTATIONS = [
       new="        sign = _pre.Pregex().not_preceded_by(_op.Either('+', '-'))\n        super().__init__(sign, end, start, is_extensible)"),
  dict(id="h-numeral-validation-reordered", kind="harmless", props=["C17"], file=ESS,
       old="        if base < 2 or base > 16:", new="        if base > 16 or base < 2:"),
+ # ---- class layer: core operations, operators, constructors (G8b, G9, G9b) ------------------------------------------
+ dict(id="c-or-drops-second-chars", kind="break", props=["C07"], file=CLS,
+      old="ranges, chars = ranges1.union(ranges2), chars1.union(chars2)", new="ranges, chars = ranges1.union(ranges2), chars1"),
+ dict(id="c-sub-skips-char-difference", kind="break", props=["C07"], file=CLS,
+      old="        chars1 = chars1.difference(chars2)", new="        chars1 = chars1"),
+ dict(id="c-rsub-operand-order", kind="break", props=["C07"], file=CLS,
+      old="        return __class__.__sub(pre, self)", new="        return __class__.__sub(self, pre)"),
+ dict(id="c-sub-empty-check-dropped", kind="break", props=["C07"], file=CLS,
+      old="        if len(result) == 0:\n            raise _ex.EmptyClassException(pre1, pre2)", new="        if len(result) < 0:\n            raise _ex.EmptyClassException(pre1, pre2)"),
+ dict(id="h-or-union-commuted", kind="harmless", props=["C07"], file=CLS,
+      old="ranges, chars = ranges1.union(ranges2), chars1.union(chars2)", new="ranges, chars = ranges2.union(ranges1), chars2.union(chars1)"),
+ dict(id="k-anyfrom-forgets-escape", kind="break", props=["C06"], file=CLS,
+      old="        chars = tuple((f\"\\\\{c}\" if c in __class__._to_escape else c) for c in chars)\n        super().__init__(f\"[{''.join(chars)}]\", is_negated=False)",
+      new="        super().__init__(f\"[{''.join(chars)}]\", is_negated=False)"),
+ # ---- meta: composition (G10b) ------------------------------------------------------------------------------------
+ dict(id="w-wordcontains-not-enclosed", kind="break", props=["C17"], file=ESS,
+      old="        pre = _op.Enclose(\n            _op.Either(*infix),\n            _qu.Indefinite(_cl.AnyWordChar(is_global=is_global))\n        )",
+      new="        pre = _op.Either(*infix) + _qu.Indefinite(_cl.AnyWordChar(is_global=is_global))"),
+ dict(id="i-positive-sign-branches-swapped", kind="break", props=["C15"], file=ESS,
+      old="        if is_extensible:\n            sign = _pre.Pregex('+')", new="        if not is_extensible:\n            sign = _pre.Pregex('+')"),
+ dict(id="d-decimal-missing-integer-part-always-allowed", kind="break", props=["C16"], file=ESS,
+      old="        integer_part = UnsignedInteger(start, end, is_extensible)\n        if start == 0:", new="        integer_part = UnsignedInteger(start, end, is_extensible)\n        if start >= 0:"),
  # ---- history (C20) ----------------------------------------------------------------------------------------------
  dict(id="s-concat-caches-on-self", kind="break", props=["C20"], file=PRE,
       old="        pattern = self._concat_conditional_group()\n        pre = pre._concat_conditional_group()",
